@@ -3,6 +3,7 @@ pub mod c06;
 pub mod c10;
 pub mod c14;
 pub mod c15;
+pub mod c19;
 
 use crate::run::RunCtx;
 
@@ -13,6 +14,7 @@ pub fn dispatch(prop: &str, rc: &mut RunCtx) -> bool {
         "C10" => c10::run(rc),
         "C14" => c14::run(rc),
         "C15" => c15::run(rc),
+        "C19" => c19::run(rc),
         _ => return false,
     }
     true
